@@ -126,7 +126,7 @@ def make_harness(n_calls: int, first_kind: str, later_kinds: list[str] | None = 
         _Hook.reset()
         tno = e.pick(trees or list(range(len(TREES))), "tree")
         root = build(TREES[tno])
-        baseline = root.as_dict()
+        baseline = copy.deepcopy(root.as_dict())  # a snapshot: the library must not be able to reach it
         clean = {"as_obj": baseline, "from_json": root.to_json(), "from_msgpck": root.to_msgpck(), "from_yaml": root.to_yaml()}
         history: list[str] = []
         scenario: dict[str, Any] = {"tree": describe(TREES[tno]), "calls": history}
@@ -140,7 +140,7 @@ def make_harness(n_calls: int, first_kind: str, later_kinds: list[str] | None = 
                 Source.clear_registry()
             if state == "cleared-then-new-parent-with-a-registered-source":
                 root = CLASSES["VReq"](child=root, origin=CodeOrigin(MemoryTextSource(_raw="fresh text", source_uri="fresh"), get_code_range(0, 1, 0, 3, 1, 3)))
-                baseline = root.as_dict()
+                baseline = copy.deepcopy(root.as_dict())  # a snapshot: the library must not be able to reach it
                 clean = {"as_obj": baseline, "from_json": root.to_json(), "from_msgpck": root.to_msgpck(), "from_yaml": root.to_yaml()}
         for step in range(n_calls):
             kind = first_kind if step == 0 else e.pick(later_kinds or (SER + DESER), f"call{step}")
